@@ -343,7 +343,7 @@ fn exec(w: &mut Worker, c: &Value) -> Value {
         "excl" => match w.cb.as_mut() {
             None => json!({"r": "nocb"}),
             Some(cb) => {
-                cb.set_exclusive(c["v"].as_bool().unwrap_or(false));
+                cb.set_exclusive(c["on"].as_bool().unwrap_or(false));
                 json!({"r": "ok", "ex": cb.is_exclusive()})
             }
         },
@@ -608,7 +608,7 @@ enum Reply {
 
 fn spawn_kid() -> Kid {
     let exe = std::env::current_exe().expect("current_exe");
-    let mut child = Command::new(exe).arg("--child").stdin(Stdio::piped()).stdout(Stdio::piped()).stderr(Stdio::inherit()).spawn().expect("spawn worker");
+    let mut child = Command::new(exe).arg("--child").stdin(Stdio::piped()).stdout(Stdio::piped()).stderr(if std::env::var_os("VERIF_X05_DEBUG").is_some() { Stdio::inherit() } else { Stdio::null() }).spawn().expect("spawn worker");
     let stdin = child.stdin.take().expect("stdin");
     let stdout = child.stdout.take().expect("stdout");
     let (tx, rx) = channel();
@@ -709,6 +709,19 @@ const CALL_TIMEOUT: Duration = Duration::from_secs(30);
 fn shm_size(name: &str) -> i64 {
     std::fs::metadata(format!("/dev/shm/cascette_{name}")).map(|m| m.len() as i64).unwrap_or(-1)
 }
+/// What anybody can see of the shared objects of this run: their sizes (-1: no object under that name).
+fn observe(name: &str) -> Value {
+    // the flags dword at 0x150 of the region, read through the file system like any other process could
+    let ea = (|| -> Option<u64> {
+        use std::io::{Read, Seek, SeekFrom};
+        let mut f = std::fs::File::open(format!("/dev/shm/cascette_{name}")).ok()?;
+        f.seek(SeekFrom::Start(0x150)).ok()?;
+        let mut b = [0u8; 4];
+        f.read_exact(&mut b).ok()?;
+        Some(cl(u64::from(u32::from_le_bytes(b))))
+    })();
+    json!({"fsz": shm_size(name), "ea": ea.map_or(-1, |v| v as i64), "na": shm_size(&format!("{name}_a")), "nb": shm_size(&format!("{name}_b"))})
+}
 
 fn remove_locks(dir: &Path) -> u64 {
     let mut n = 0;
@@ -769,17 +782,17 @@ impl Ctl {
             if self.kids[p - 1].pending && name_op != "granted" && name_op != "crash" {
                 let removed = remove_locks(&dir);
                 seq += 1;
-                out.ev(&json!({"p": 0, "op": "unstick", "i": seq, "res": {"r": "ok", "removed": removed}, "obs": {"fsz": shm_size(&name)}}));
+                out.ev(&json!({"p": 0, "op": "unstick", "i": seq, "res": {"r": "ok", "removed": removed}, "obs": observe(&name)}));
                 let res = self.late_answer(p);
                 seq += 1;
-                out.ev(&json!({"p": p, "op": "granted", "auto": true, "i": seq, "res": res, "obs": {"fsz": shm_size(&name)}}));
+                out.ev(&json!({"p": p, "op": "granted", "auto": true, "i": seq, "res": res, "obs": observe(&name)}));
             }
             let res = self.step(p, name_op, op, &dir);
             seq += 1;
             let mut ev = op.clone();
             ev["i"] = json!(seq);
             ev["res"] = res;
-            ev["obs"] = json!({"fsz": shm_size(&name)});
+            ev["obs"] = observe(&name);
             out.ev(&ev);
         }
         // tidy up: blocked workers are killed, objects and files removed
